@@ -199,24 +199,24 @@ class MarginRule(cssrule.CSSRule):
         )
 
         if ok:
-            # TODO: use seq for serializing instead of fixed stuff?
-            self._setSeq(seq)
-
-            if 'margin' in store:
-                # may raise:
-                self.margin = store['margin'].value
-            else:
+            # everything which may raise first: nothing is changed by a text
+            # which is refused
+            if 'margin' not in store:
                 self._log.error(
                     'No margin @keyword for this %s rule' % self.margin,
                     error=xml.dom.InvalidModificationErr,
                 )
-
-            # new empty style
-            self.style = CSSStyleDeclaration(parentRule=self)
-
+            newStyle = CSSStyleDeclaration(parentRule=self)
             if 'styletokens' in store:
                 # may raise:
-                self.style.cssText = store['styletokens']
+                newStyle.cssText = store['styletokens']
+            if 'margin' in store:
+                # may raise:
+                self.margin = store['margin'].value
+
+            # TODO: use seq for serializing instead of fixed stuff?
+            self._setSeq(seq)
+            self.style = newStyle
 
     cssText = property(
         fget=_getCssText,
